@@ -80,10 +80,24 @@ pub(crate) fn stub_fmt_write_nothing(_output: &mut dyn core::fmt::Write, _args: 
     Ok(())
 }
 
-/// Stub for `String::reserve`: a capacity hint only. Skipping it keeps every allocation size a constant:
-/// growth then happens in `String::push` (capacity doubling from 0 -> 8 -> 16 ...), whereas `reserve(n)` with a
-/// symbolic `n` asks the allocator for a symbolic size, which CBMC's array post-processing does not survive.
-pub(crate) fn stub_string_reserve(_s: &mut String, _additional: usize) {}
+/// Stub for `String::reserve`: a BOUNDED model of growth. If the spare capacity suffices nothing happens; otherwise the
+/// string is moved into a fresh buffer of the constant capacity `STRING_MODEL_CAP` (never a symbolic size: CBMC's array
+/// post-processing does not survive `reserve(n)` with a symbolic `n`). A string that would outgrow the model fails the
+/// harness ("string model capacity exceeded" = inconclusive, bound too small). NOTE: `String::push` of the pinned
+/// toolchain calls `self.reserve(ch.len_utf8())` and then writes WITHOUT a capacity check, so a no-op stub (as used
+/// in the first build session) makes `push` write through a dangling pointer; this version keeps `push` sound.
+pub(crate) const STRING_MODEL_CAP: usize = 48;
+
+pub(crate) fn stub_string_reserve(s: &mut String, additional: usize) {
+    if s.capacity() - s.len() >= additional {
+        return;
+    }
+    assert!(s.len() <= STRING_MODEL_CAP && additional <= STRING_MODEL_CAP - s.len(), "string model capacity exceeded");
+    let old = core::mem::replace(s, String::with_capacity(STRING_MODEL_CAP));
+    for c in old.chars() {
+        s.push(c);
+    }
+}
 
 /// Stub for `String::push_str`: character-by-character `push` (same result; avoids the `reserve(len)` of
 /// `Vec::extend_from_slice`, see `stub_string_reserve`).
